@@ -21,6 +21,7 @@ from __future__ import annotations
 import ast
 import enum as _enum
 import functools
+import itertools as _itertools
 import re as _re
 from collections import ChainMap
 
@@ -513,6 +514,8 @@ class Interp(Folder):
             raise PyRaise("AttributeError", f"'NoneType' object has no attribute '{a}'", e)
         if isinstance(v, _enum.Enum) and a in ("name", "value"):
             return getattr(v, a)
+        if v is _itertools.chain and a == "from_iterable":
+            return Native(lambda it_: [y for x in self.iterate(it_) for y in self.iterate(x)], "chain.from_iterable")
         if isinstance(v, _re.Pattern) and a in ("sub", "match", "fullmatch", "search", "split", "findall"):
             return getattr(v, a)
         return super().ev_Attribute(e, env)
